@@ -12,7 +12,14 @@
 (* allocates a fresh array (cap 500 bytes in the code = Cap cells here)    *)
 (* and copies; Context methods and UpdateContext append in place when the  *)
 (* capacity allows, else reallocate; Level / Sample / Hook copy the struct *)
-(* and share the context slice; Hook() and Output() allocate.  The         *)
+(* and share the context slice; Hook() and Output() allocate.  The hooks   *)
+(* are a second Go slice (hmem): With() copies the struct and so SHARES    *)
+(* the parent's hook array; Logger.Hook and the context hooks (Timestamp,  *)
+(* Caller, CallerWithSkipFrameCount: CtxHook) allocate an array of exactly *)
+(* len+1 and copy, Output copies.  HookInPlace = TRUE is the deviation     *)
+(* "context hooks append in place" (Go append: in place when the capacity  *)
+(* allows, else double): TLC then finds two siblings writing the same cell *)
+(* of their parent's array.  The                                           *)
 (* invariant Independent says that what the memory layer would emit is the *)
 (* ghost - it holds for the program shapes the statement allows (Affine:   *)
 (* a Context value is used at most once; UpdateContext only on a logger    *)
@@ -27,21 +34,25 @@ EXTENDS Integers, Sequences, FiniteSets, TLC, Json
 CONSTANTS S,        \* value slots (variables of the user's program)
           Cap,      \* capacity of a With() allocation, in fields
           MaxOps,
-          Affine    \* restrict to the program shapes the statement allows
+          Affine,   \* restrict to the program shapes the statement allows
+          HookInPlace  \* FALSE: the code as it is. TRUE: deviation - context hooks appended in place
 
 None == [kind |-> "none"]
+LibHooks == {-1, -10, -11}   \* Timestamp, Caller, CallerWithSkipFrameCount(one frame further up)
 VARIABLES slot,   \* slot[i]: None | [kind: "L"|"C", arr, len, fresh, used, g: ghost]
           mem,    \* backing arrays: sequence of sequences of field ids (Len = capacity, 0 = unused cell)
+          hmem,   \* backing arrays of the hook slices: sequences of hook ids (Len = capacity, 0 = unused cell)
           nf, nh, nc,   \* counters: fields, hooks, go contexts created
           prog          \* the program so far (history; exported)
-vars == <<slot, mem, nf, nh, nc, prog>>
+vars == <<slot, mem, hmem, nf, nh, nc, prog>>
 
 Ghost0 == [fields |-> <<>>, hooks |-> <<>>, goctx |-> 0, level |-> 0, stack |-> FALSE]
-Root == [kind |-> "L", arr |-> 0, len |-> 0, fresh |-> FALSE, used |-> FALSE, g |-> Ghost0]
+Root == [kind |-> "L", arr |-> 0, len |-> 0, harr |-> 0, hlen |-> 0, fresh |-> FALSE, used |-> FALSE, g |-> Ghost0]
 Init == /\ slot = [i \in 1..S |-> IF i = 1 THEN Root ELSE None]
-        /\ mem = <<>> /\ nf = 0 /\ nh = 0 /\ nc = 0 /\ prog = <<>>
+        /\ mem = <<>> /\ hmem = <<>> /\ nf = 0 /\ nh = 0 /\ nc = 0 /\ prog = <<>>
 
 Content(v) == IF v.arr = 0 THEN <<>> ELSE SubSeq(mem[v.arr], 1, v.len)
+HContent(v) == IF v.harr = 0 THEN <<>> ELSE SubSeq(hmem[v.harr], 1, v.hlen)
 Pad(s, n) == s \o [i \in 1..(n - Len(s)) |-> 0]
 Max(a, b) == IF a > b THEN a ELSE b
 \* Go append of one element: in place when the capacity allows, else reallocate (doubling)
@@ -50,6 +61,14 @@ AppendTo(v, f) ==
   THEN [m |-> [mem EXCEPT ![v.arr][v.len + 1] = f], arr |-> v.arr]
   ELSE LET old == Content(v) IN
        [m |-> Append(mem, Pad(Append(old, f), Max(Cap, 2 * Len(old)))), arr |-> Len(mem) + 1]
+
+\* Logger.Hook: make([]Hook, len, len+1), copy, append - always a fresh array of exactly the size needed
+HookAlloc(v, h) == [m |-> Append(hmem, Append(HContent(v), h)), arr |-> Len(hmem) + 1]
+\* the deviation: append(l.hooks, h) - in place when there is room (first allocation 1, then doubling)
+HookAppend(v, h) ==
+  IF v.harr # 0 /\ v.hlen < Len(hmem[v.harr])
+  THEN [m |-> [hmem EXCEPT ![v.harr][v.hlen + 1] = h], arr |-> v.harr]
+  ELSE LET old == HContent(v) IN [m |-> Append(hmem, Pad(Append(old, h), Max(1, 2 * Len(old)))), arr |-> Len(hmem) + 1]
 
 Step(op, i, j, a) == prog' = Append(prog, [op |-> op, i |-> i, j |-> j, a |-> a])
 Can(n) == Len(prog) < MaxOps
@@ -61,74 +80,87 @@ Use(i, j, v) == [slot EXCEPT ![i] = (IF slot[i].kind = "C" THEN [slot[i] EXCEPT 
 \* c := l.With()
 With(i, j) == /\ Can(1) /\ IsL(i) /\ Free(i, j)
               /\ mem' = Append(mem, Pad(Content(slot[i]), Max(Cap, slot[i].len)))
-              /\ slot' = Use(i, j, [kind |-> "C", arr |-> Len(mem) + 1, len |-> slot[i].len, fresh |-> FALSE, used |-> FALSE, g |-> slot[i].g])
-              /\ UNCHANGED <<nf, nh, nc>> /\ Step("With", i, j, 0)
+              /\ slot' = Use(i, j, [kind |-> "C", arr |-> Len(mem) + 1, len |-> slot[i].len, harr |-> slot[i].harr, hlen |-> slot[i].hlen,
+                                    fresh |-> FALSE, used |-> FALSE, g |-> slot[i].g])
+              /\ UNCHANGED <<hmem, nf, nh, nc>> /\ Step("With", i, j, 0)
 \* c2 := c.Str(...)   (value receiver: returns a new Context value)
 Field(i, j) == /\ Can(1) /\ IsC(i) /\ Free(i, j)
                /\ LET r == AppendTo(slot[i], nf + 1) IN
                   /\ mem' = r.m
-                  /\ slot' = Use(i, j, [kind |-> "C", arr |-> r.arr, len |-> slot[i].len + 1, fresh |-> FALSE, used |-> FALSE,
-                                        g |-> [slot[i].g EXCEPT !.fields = Append(@, nf + 1)]])
-               /\ nf' = nf + 1 /\ UNCHANGED <<nh, nc>> /\ Step("Field", i, j, nf + 1)
+                  /\ slot' = Use(i, j, [kind |-> "C", arr |-> r.arr, len |-> slot[i].len + 1, harr |-> slot[i].harr, hlen |-> slot[i].hlen,
+                                        fresh |-> FALSE, used |-> FALSE, g |-> [slot[i].g EXCEPT !.fields = Append(@, nf + 1)]])
+               /\ nf' = nf + 1 /\ UNCHANGED <<hmem, nh, nc>> /\ Step("Field", i, j, nf + 1)
 \* c2 := c.Ctx(ctx)
 GoCtx(i, j) == /\ Can(1) /\ IsC(i) /\ Free(i, j)
                /\ slot' = Use(i, j, [slot[i] EXCEPT !.used = FALSE, !.g.goctx = nc + 1])
-               /\ nc' = nc + 1 /\ UNCHANGED <<mem, nf, nh>> /\ Step("GoCtx", i, j, nc + 1)
+               /\ nc' = nc + 1 /\ UNCHANGED <<mem, hmem, nf, nh>> /\ Step("GoCtx", i, j, nc + 1)
 \* c2 := c.Stack(): the stack flag is part of the logger value: descendants inherit it, siblings and parents do not get it,
 \* and temporaries that are not created by a logger (zerolog.Dict(), Arr().Object ...) never have it
 StackOn(i, j) == /\ Can(1) /\ IsC(i) /\ Free(i, j)
                  /\ slot' = Use(i, j, [slot[i] EXCEPT !.used = FALSE, !.g.stack = TRUE])
-                 /\ UNCHANGED <<mem, nf, nh, nc>> /\ Step("Stack", i, j, 0)
+                 /\ UNCHANGED <<mem, hmem, nf, nh, nc>> /\ Step("Stack", i, j, 0)
 \* c2 := c.Reset(): a fresh, empty context array; hooks, level, Go context carried over
 CtxReset(i, j) == /\ Can(1) /\ IsC(i) /\ Free(i, j)
                   /\ mem' = Append(mem, Pad(<<>>, Cap))
                   /\ slot' = Use(i, j, [slot[i] EXCEPT !.arr = Len(mem) + 1, !.len = 0, !.used = FALSE, !.g.fields = <<>>])
-                  /\ UNCHANGED <<nf, nh, nc>> /\ Step("CtxReset", i, j, 0)
+                  /\ UNCHANGED <<hmem, nf, nh, nc>> /\ Step("CtxReset", i, j, 0)
 \* l2 := c.Logger()
 ToLogger(i, j) == /\ Can(1) /\ IsC(i) /\ Free(i, j)
                   /\ slot' = Use(i, j, [slot[i] EXCEPT !.kind = "L", !.fresh = TRUE, !.used = FALSE])
-                  /\ UNCHANGED <<mem, nf, nh, nc>> /\ Step("Logger", i, j, 0)
+                  /\ UNCHANGED <<mem, hmem, nf, nh, nc>> /\ Step("Logger", i, j, 0)
 \* l2 := l.Level(x) / l.Sample(s): struct copy sharing the context slice
 Level(i, j, x) == /\ Can(1) /\ IsL(i) /\ Free(i, j)
                   /\ slot' = Use(i, j, [slot[i] EXCEPT !.fresh = FALSE, !.g.level = x])
-                  /\ UNCHANGED <<mem, nf, nh, nc>> /\ Step("Level", i, j, x)
+                  /\ UNCHANGED <<mem, hmem, nf, nh, nc>> /\ Step("Level", i, j, x)
 \* l2 := l.Hook(h): struct copy sharing the context slice; the hooks slice is freshly allocated
 Hook(i, j) == /\ Can(1) /\ IsL(i) /\ Free(i, j)
-              /\ slot' = Use(i, j, [slot[i] EXCEPT !.fresh = FALSE, !.g.hooks = Append(@, nh + 1)])
+              /\ LET r == HookAlloc(slot[i], nh + 1) IN
+                 /\ hmem' = r.m
+                 /\ slot' = Use(i, j, [slot[i] EXCEPT !.fresh = FALSE, !.harr = r.arr, !.hlen = @ + 1, !.g.hooks = Append(@, nh + 1)])
               /\ nh' = nh + 1 /\ UNCHANGED <<mem, nf, nc>> /\ Step("Hook", i, j, nh + 1)
+\* c2 := c.Timestamp() / c.Caller() / c.CallerWithSkipFrameCount(n): a library hook registered through the Context; c.l = c.l.Hook(h),
+\* so a fresh array like Hook.  h < 0 names the library hook by what it is seen to add (-1 the time, -(10+k) the caller k frames up)
+CtxHook(i, j, h) == /\ Can(1) /\ IsC(i) /\ Free(i, j)
+                    /\ LET r == IF HookInPlace THEN HookAppend(slot[i], h) ELSE HookAlloc(slot[i], h) IN
+                       /\ hmem' = r.m
+                       /\ slot' = Use(i, j, [slot[i] EXCEPT !.used = FALSE, !.harr = r.arr, !.hlen = @ + 1, !.g.hooks = Append(@, h)])
+                    /\ UNCHANGED <<mem, nf, nh, nc>> /\ Step("CtxHook", i, j, h)
 \* l2 := l.Output(w2): deep copy of context and hooks; everything else carried over
 Output(i, j) == /\ Can(1) /\ IsL(i) /\ Free(i, j)
                 /\ mem' = (IF slot[i].arr = 0 THEN mem ELSE Append(mem, mem[slot[i].arr]))
-                /\ slot' = Use(i, j, [slot[i] EXCEPT !.arr = (IF slot[i].arr = 0 THEN 0 ELSE Len(mem) + 1), !.fresh = FALSE])
+                /\ hmem' = (IF slot[i].hlen = 0 THEN hmem ELSE Append(hmem, HContent(slot[i])))
+                /\ slot' = Use(i, j, [slot[i] EXCEPT !.arr = (IF slot[i].arr = 0 THEN 0 ELSE Len(mem) + 1), !.fresh = FALSE,
+                                                      !.harr = (IF slot[i].hlen = 0 THEN 0 ELSE Len(hmem) + 1)])
                 /\ UNCHANGED <<nf, nh, nc>> /\ Step("Output", i, j, 0)
 \* l.UpdateContext(func(c) { return c.Str(...) }): in place through the pointer
 Update(i) == /\ Can(1) /\ IsL(i) /\ (Affine => slot[i].fresh)
              /\ LET r == AppendTo(slot[i], nf + 1) IN
                 /\ mem' = r.m
                 /\ slot' = [slot EXCEPT ![i] = [@ EXCEPT !.arr = r.arr, !.len = @ + 1, !.g.fields = Append(@, nf + 1)]]
-             /\ nf' = nf + 1 /\ UNCHANGED <<nh, nc>> /\ Step("Update", i, i, nf + 1)
+             /\ nf' = nf + 1 /\ UNCHANGED <<hmem, nh, nc>> /\ Step("Update", i, i, nf + 1)
 \* l.UpdateContext(func(c) { return c.Reset().Str(...) }): the logger moves to a FRESH array holding only the new field;
 \* whoever still shares the old array (Level / Sample / Hook copies, value copies) keeps what it had
 UpdateReset(i) == /\ Can(1) /\ IsL(i) /\ (Affine => slot[i].fresh)
                   /\ mem' = Append(mem, Pad(<<nf + 1>>, Cap))
                   /\ slot' = [slot EXCEPT ![i] = [@ EXCEPT !.arr = Len(mem) + 1, !.len = 1, !.g.fields = <<nf + 1>>]]
-                  /\ nf' = nf + 1 /\ UNCHANGED <<nh, nc>> /\ Step("UpdateReset", i, i, nf + 1)
+                  /\ nf' = nf + 1 /\ UNCHANGED <<hmem, nh, nc>> /\ Step("UpdateReset", i, i, nf + 1)
 \* the value goes out of scope
 Drop(i) == /\ Can(1) /\ i # 1 /\ slot[i] # None /\ slot' = [slot EXCEPT ![i] = None]
-           /\ UNCHANGED <<mem, nf, nh, nc>> /\ Step("Drop", i, i, 0)
+           /\ UNCHANGED <<mem, hmem, nf, nh, nc>> /\ Step("Drop", i, i, 0)
 \* an event through logger i; the expectation (ghost) is part of the exported step
-Emit(i) == /\ Can(1) /\ IsL(i) /\ UNCHANGED <<slot, mem, nf, nh, nc>>
+Emit(i) == /\ Can(1) /\ IsL(i) /\ UNCHANGED <<slot, mem, hmem, nf, nh, nc>>
            /\ prog' = Append(prog, [op |-> "Emit", i |-> i, j |-> i, a |-> 0, fields |-> slot[i].g.fields, hooks |-> slot[i].g.hooks,
                                     goctx |-> slot[i].g.goctx, level |-> slot[i].g.level, stack |-> slot[i].g.stack])
 
 Next == \E i, j \in 1..S :
           \/ With(i, j) \/ Field(i, j) \/ GoCtx(i, j) \/ CtxReset(i, j) \/ StackOn(i, j) \/ ToLogger(i, j) \/ Hook(i, j) \/ Output(i, j)
-          \/ (\E x \in {1, 2} : Level(i, j, x)) \/ Update(i) \/ UpdateReset(i) \/ Drop(i) \/ Emit(i)
+          \/ (\E h \in LibHooks : CtxHook(i, j, h)) \/ (\E x \in {1, 2} : Level(i, j, x)) \/ Update(i) \/ UpdateReset(i) \/ Drop(i) \/ Emit(i)
 Spec == Init /\ [][Next]_vars
-View == <<slot, mem, nf, nh, nc, Len(prog)>>
+View == <<slot, mem, hmem, nf, nh, nc, Len(prog)>>
 
 \* C05 on the memory layer: what every live logger would emit is exactly its own derivation path
-Independent == \A i \in 1..S : (slot[i].kind = "L" \/ (slot[i].kind = "C" /\ ~slot[i].used)) => Content(slot[i]) = slot[i].g.fields
+Independent == \A i \in 1..S : (slot[i].kind = "L" \/ (slot[i].kind = "C" /\ ~slot[i].used)) =>
+                                     Content(slot[i]) = slot[i].g.fields /\ HContent(slot[i]) = slot[i].g.hooks
 \* export complete programs (every live logger emits at the end: appended by the exporter)
 EmitProg == Len(prog) < MaxOps \/ PrintT("@@PROG|" \o ToJson({i \in 1..S : slot[i].kind = "L"}) \o "|" \o ToJson(prog))
 =============================================================================
